@@ -214,6 +214,7 @@ func runC05(cw *caseWriter, tier string, seed uint64) {
 	}
 	// the current-term rule lives in setupLeaderState + the leader loop: leader sequences (with the C05 monitor)
 	c08gen(cw, tier, &rng{s: seed*17 + 1})
+	c05commitBack(cw, &rng{s: seed + 5}) // the follower's commit index never moves backwards (handler level)
 	runC102(cw, tier, seed, 2)
 	runC104(cw, tier, seed, 2) // snapshot transfer inside the composed cluster system (Model/ClusterSnap.v)
 	// pipeline replication (pipelineReplicate / pipelineDecode) with follower store faults: history monitors
